@@ -51,7 +51,7 @@ def gen_spec(rng, clean=False, max_nodes=5):
     libs['images'] = [{'id': i} for i in ids['images']]
     libs['effects'] = []
     for i in ids['effects']:
-        e = {'id': i, 'image': None}
+        e = {'id': i, 'image': None, 'bump': rng.random() < 0.4}
         if rng.random() < 0.4:
             if ids['images'] and (clean or rng.random() > 0.15):
                 e['image'] = rng.choice(ids['images'])
@@ -245,6 +245,10 @@ def build(spec):
                 el = frag(D.image(x['id'], x['id'] + '.png'))
             elif k == 'effects':
                 el = frag(D.effect_textured(x['id'], x['image']) if x['image'] is not None else D.effect_plain(x['id']))
+                if x['image'] is not None and x.get('bump'):
+                    tech = el.find(q('extra')).find(q('technique'))
+                    b = ET.SubElement(tech, q('bump'))
+                    ET.SubElement(b, q('texture'), {'texture': x['id'] + '-samp', 'texcoord': 'UV0'})
             elif k == 'materials':
                 el = frag(D.material(x['id'], 'X'))
                 el.find(q('instance_effect')).set('url', x['effect'])
